@@ -229,8 +229,11 @@ class Ctx:
 
     # -- fresh names -------------------------------------------------------
     def fresh(self, stem):
-        self.fresh_n += 1
-        return '%s!%d' % (stem, self.fresh_n)
+        """deterministic per-path, per-stem fresh names (the k-th 'q' is the
+        k-th stream read in symbolic and in concrete mode alike)"""
+        c = self.env.setdefault('fresh', {})
+        c[stem] = c.get(stem, 0) + 1
+        return '%s!%d' % (stem, c[stem])
 
     # -- inputs ------------------------------------------------------------
     def _val(self, name):
@@ -344,6 +347,8 @@ def E(x, W=None):
         return z3.If(x.e, z3.BitVecVal(1, W), z3.BitVecVal(0, W))
     if isinstance(x, (bool, int)):
         return z3.BitVecVal(builtins.int(x), W)
+    if z3.is_bv(x):
+        return x
     raise Unsupported('E(%r)' % type(x))
 
 
@@ -839,6 +844,8 @@ def bytes_items(x):
         return list(builtins.bytes(x))
     if hasattr(x, 'flat'):          # Rope
         return x.flat().items
+    if isinstance(x, list):
+        return [_item(b) for b in x]
     raise Unsupported('bytes_items(%r)' % type(x))
 
 
@@ -964,6 +971,14 @@ class SBytes:
 # exploration
 # --------------------------------------------------------------------------
 
+def _conjuncts(e):
+    if z3.is_and(e):
+        for c in e.children():
+            yield from _conjuncts(c)
+    else:
+        yield e
+
+
 class PathResult:
     __slots__ = ('kind', 'ok', 'exc', 'assignment', 'info', 'trace',
                  'verdict', 'ob_verdict', 'cex', 'notes')
@@ -1044,6 +1059,16 @@ def explore(fn, W=64, seed=0, max_paths=200000, deadline=None,
                 if ok is False:
                     ok = z3.BoolVal(False)
                 r = ctx.check(z3.Not(ok))
+                if r == z3.unknown and z3.is_and(ok):
+                    # retry conjunct by conjunct (each query is simpler)
+                    r = z3.unsat
+                    for cj in _conjuncts(ok):
+                        rc = ctx.check(z3.Not(cj))
+                        if rc == z3.sat:
+                            r = rc
+                            break
+                        if rc == z3.unknown:
+                            r = rc
                 res['verdict'] = str(r)
                 if r == z3.sat:
                     res['cex'] = ctx.assignment_from_model(ctx._last.model())
